@@ -613,6 +613,19 @@ func (c *Client) delete(id transactionID) {
 	c.mux.Unlock()
 }
 
+// forget removes t from the registered transactions and reports whether it
+// was still registered under id.
+func (c *Client) forget(id transactionID, t *clientTransaction) bool {
+	c.mux.Lock()
+	defer c.mux.Unlock()
+	if cur, ok := c.t[id]; !ok || cur != t {
+		return false
+	}
+	delete(c.t, id)
+
+	return true
+}
+
 type buffer struct {
 	buf []byte
 }
@@ -680,7 +693,12 @@ func (c *Client) handleAgentCallback(event Event) { //nolint:cyclop
 	// Writing message to connection again.
 	_, writeErr := c.c.Write(buff.buf)
 	if writeErr != nil {
-		c.delete(id)
+		if !c.forget(id, transaction) {
+			// A response processed during the write has completed the
+			// transaction: that goroutine called the handler and owns the
+			// object now, so it must not be handled or recycled again.
+			return
+		}
 		event.Error = writeErr
 		// Stopping agent transaction instead of waiting until it's deadline.
 		// This will call handleAgentCallback with "ErrTransactionStopped" error
